@@ -3,7 +3,7 @@
 # usage: ./suite.sh [repo-dir] [extra go test flags...]
 . "$(dirname "$0")/env.sh"
 REPO="${1:-/repo}"; shift
-cd "$REPO" && go test -json -vet=off -count=1 -timeout 25m "$@" ./... 2>/dev/null | python3 -c '
+cd "$REPO" && GOMAXPROCS=${SUITE_PROCS:-6} go test -p ${SUITE_PROCS:-6} -json -vet=off -count=1 -timeout 25m "$@" ./... 2>/dev/null | python3 -c '
 import json,sys
 base=set(json.load(open("/root/.vp/BASELINE.json"))["stable_pass"])
 passed=set()
